@@ -5,6 +5,7 @@
 package sim
 
 import (
+	"fmt"
 	"encoding/binary"
 )
 
@@ -31,7 +32,19 @@ type Tape struct {
 	Rec    []Draw
 	// zeroRest: after the forced prefix every draw is 0 (systematic enumeration)
 	zeroRest bool
+	// flabels: the label of the draw each forced value is meant for. A forced value that is about
+	// to be consumed by a draw with another label means that the scenario's draw order no longer
+	// matches its enumeration table: the mismatch is recorded (the driver turns it into a harness
+	// failure) instead of silently enumerating something else.
+	flabels  []string
+	Mismatch string
 }
+
+// ExpectLabels declares which draw (by label) each value of the forced prefix is meant for.
+func (t *Tape) ExpectLabels(l []string) *Tape { t.flabels = l; return t }
+
+// ForcedUsed is the number of forced values that draws have consumed.
+func (t *Tape) ForcedUsed() int { return t.fpos }
 
 // NewEnumTape returns a tape that serves the forced prefix and then zeros; the
 // driver's depth-first enumeration increments the last incrementable draw.
@@ -85,6 +98,12 @@ func (t *Tape) Choose(label string, n int) int {
 		}
 		t.pos++
 	} else if t.fpos < len(t.forced) {
+		if t.fpos < len(t.flabels) && t.flabels[t.fpos] != label && t.Mismatch == "" {
+			t.Mismatch = fmt.Sprintf("forced value #%d (%d) is meant for the draw %q but the scenario's draw #%d is %q", t.fpos, t.forced[t.fpos], t.flabels[t.fpos], len(t.Rec), label)
+		}
+		if t.forced[t.fpos] >= n && t.Mismatch == "" && t.flabels != nil {
+			t.Mismatch = fmt.Sprintf("forced value #%d (%d) is out of range for the draw %q (bound %d)", t.fpos, t.forced[t.fpos], label, n)
+		}
 		v = t.forced[t.fpos] % n
 		if v < 0 {
 			v = 0
